@@ -107,6 +107,21 @@ func (f *flattener) flat(term Term, ty types.Type, path string, depth int) {
 
 // getValues runs one solver on the obligation script extended with get-value for the leaves.
 func getValues(e *enc, o *Obligation, leaves []leaf, dir string, pin map[string]string, block []map[string]string) (map[string]string, string, error) {
+	// only ask for terms whose node functions are declared in this obligation's script prefix
+	probe := e.script(o, nil)
+	var kept []leaf
+	for _, l := range leaves {
+		ok := true
+		for _, m := range nmNameRe.FindAllString(l.term, -1) {
+			if !strings.Contains(probe, "(declare-fun "+m+" ") {
+				ok = false
+			}
+		}
+		if ok {
+			kept = append(kept, l)
+		}
+	}
+	leaves = kept
 	var terms []string
 	for _, l := range leaves {
 		terms = append(terms, l.term)
@@ -153,8 +168,11 @@ func getValues(e *enc, o *Obligation, leaves []leaf, dir string, pin map[string]
 	if err := os.WriteFile(file, []byte(txt), 0644); err != nil {
 		return nil, "", err
 	}
-	for _, argv := range [][]string{{"z3-new", "-T:20", file}, {"z3", "-T:20", file}, {"cvc5", "--tlimit=20000", "--strings-exp", "--produce-models", file}} {
-		ctx, cancel := context.WithTimeout(context.Background(), 25*time.Second)
+	for _, argv := range [][]string{{"z3-new", "-T:8", file}, {"cvc5", "--tlimit=8000", "--strings-exp", "--produce-models", file}, {"z3", "-T:8", file}} {
+		if !replayDeadline.IsZero() && time.Now().After(replayDeadline) {
+			break
+		}
+		ctx, cancel := context.WithTimeout(context.Background(), 10*time.Second)
 		out, _ := exec.CommandContext(ctx, argv[0], argv[1:]...).CombinedOutput()
 		cancel()
 		s := string(out)
@@ -417,7 +435,32 @@ func zeroLit(ty types.Type, qual types.Qualifier) string {
 
 const replayCandidates = 6
 
+var replayDeadline time.Time
+
+// replayInputs: the inputs that exist at the obligation's program point; package-level variables only when they are plain data
+func replayInputs(e *enc, o *Obligation) []modelVar {
+	var out []modelVar
+	for _, in := range e.inputs {
+		if in.NDecl > o.NDecl {
+			continue
+		}
+		if strings.Contains(in.Name, ".") {
+			switch in.Ty.Underlying().(type) {
+			case *types.Basic, *types.Slice, *types.Struct:
+			default:
+				continue
+			}
+		}
+		out = append(out, in)
+	}
+	return out
+}
+
 func tryReplay(w *World, r *FuncResult, o *Obligation, dir string, rep *Replay) {
+	if !replayDeadline.IsZero() && time.Now().After(replayDeadline) {
+		rep.Note = "replay budget of this run exhausted: not replayed"
+		return
+	}
 	e := r.Enc
 	fn := r.Fn
 	if fn == nil || fn.Pkg == nil || fn.Parent() != nil {
@@ -429,7 +472,7 @@ func tryReplay(w *World, r *FuncResult, o *Obligation, dir string, rep *Replay) 
 		return
 	}
 	fl := &flattener{e: e, ok: true}
-	for _, in := range e.inputs {
+	for _, in := range replayInputs(e, o) {
 		fl.flat(in.Term, in.Ty, "in."+in.Name, 0)
 	}
 	if !fl.ok {
@@ -462,7 +505,7 @@ func tryReplay(w *World, r *FuncResult, o *Obligation, dir string, rep *Replay) 
 		for _, o2 := range r2.Obls {
 			if o2.Name == o.Name {
 				fl2 := &flattener{e: r2.Enc, ok: true}
-				for _, in := range r2.Enc.inputs {
+				for _, in := range replayInputs(r2.Enc, o2) {
 					fl2.flat(in.Term, in.Ty, "in."+in.Name, 0)
 				}
 				collect(r2.Enc, o2, fl2.leaves)
@@ -490,7 +533,7 @@ func tryReplay(w *World, r *FuncResult, o *Obligation, dir string, rep *Replay) 
 		var setup, args []string
 		recv := ""
 		ok := true
-		for _, in := range e.inputs {
+		for _, in := range replayInputs(e, o) {
 			lit, good := goLiteral(vals, in.Ty, "in."+in.Name, qual, 0)
 			if !good {
 				ok = false
@@ -543,7 +586,7 @@ func tryReplay(w *World, r *FuncResult, o *Obligation, dir string, rep *Replay) 
 	var imp strings.Builder
 	imp.WriteString("import (\n\t\"encoding/json\"\n\t\"fmt\"\n\t\"reflect\"\n\t\"testing\"\n")
 	if usesToken {
-		imp.WriteString("\tverifantlr \"github.com/antlr/antlr4/runtime/Go/antlr/v4\"\n")
+		imp.WriteString("\tverifantlr \"github.com/antlr/antlr4/runtime/Go/antlr/v4\"\n\tverifcomment \"github.com/modernizing/coca/languages/comment\"\n")
 	}
 	var ips []string
 	for p := range imports {
@@ -753,12 +796,23 @@ func tokenHelper(use bool) string {
 	if !use {
 		return ""
 	}
+	// a real token: the comment lexer the tool ships is run over the text, preceded by line-1 newlines
 	return `
 func verifToken(text string, line int) verifantlr.Token {
-	t := verifantlr.NewCommonToken(nil, 1, 0, 0, 0)
-	t.SetText(text)
-	t.SetLine(line)
-	return t
+	if line < 1 || line > 1000 {
+		line = 1
+	}
+	src := ""
+	for i := 1; i < line; i++ {
+		src += "\n"
+	}
+	lexer := verifcomment.NewCommentLexer(verifantlr.NewInputStream(src + text))
+	for _, t := range lexer.GetAllTokens() {
+		if t.GetTokenType() >= 1 && t.GetTokenType() <= 3 {
+			return t
+		}
+	}
+	return nil
 }
 `
 }
